@@ -406,6 +406,7 @@ pub fn run(which: Which, tier: Tier) -> i32 {
     rep.layer(l);
     if which == Which::C18 {
         dot_layer(&mut rep);
+        dot_grid_layer(&mut rep);
     } else {
         namespace_layer(&mut rep);
     }
@@ -618,11 +619,132 @@ fn dot_layer(rep: &mut Report) {
     rep.layer(Layer { name: "dot-completions".into(), states: n, transitions: n, executions: n, exhaustive: false, bound: "fixed programs: after `module.` (plain, aliased, in a let) exactly the public functions and constructors; after `value.` only fields of the value's type".into(), ..Default::default() });
 }
 
+
+/// `module.` completions over every module content: each subset of 8 item kinds x 3 import forms
+/// x 4 cursor contexts; exactly the public functions and the constructors of public,
+/// non-opaque types may be offered. `value.` over every layout of a 1-2 variant record type.
+fn dot_grid_cases() -> Vec<(String, Vec<(String, String)>, usize, BTreeSet<String>, BTreeSet<String>)> {
+    // (name, [(module name, text)], cursor offset in module 0, must offer, may offer)
+    let items: [(&str, &[&str]); 8] = [
+        ("pub fn pf() { 0 }", &["pf"]),
+        ("fn qf() { 0 }", &[]),
+        ("pub const pc = 1", &[]),
+        ("const qc = 1", &[]),
+        ("pub type PT { PA(i: Int) PB }", &["PA", "PB"]),
+        ("type QT { QA QB(i: Int) }", &[]),
+        ("pub type AL = Int", &[]),
+        ("pub opaque type OT { OA }", &[]),
+    ];
+    let mut out = vec![];
+    for mask in 0..256u32 {
+        let mut m_text = String::new();
+        let mut must = BTreeSet::new();
+        for (k, (text, offered)) in items.iter().enumerate() {
+            if mask & (1 << k) != 0 {
+                m_text.push_str(text);
+                m_text.push('\n');
+                must.extend(offered.iter().map(|s| s.to_string()));
+            }
+        }
+        for (iname, import, acc, mpath) in [("plain", "import m", "m", "m"), ("alias", "import m as n", "n", "m"), ("nested", "import d/m", "m", "d/m")] {
+            for (cname, body) in [("statement", "{ACC}."), ("let", "let a = {ACC}. a"), ("partial", "{ACC}.zz"), ("argument", "main({ACC}.)")] {
+                let body = body.replace("{ACC}", acc);
+                let main = format!("{import}\npub fn main() {{ {body} }}\n");
+                let off = main.find(&format!("{acc}.")).map(|i| i + acc.len() + 1).unwrap_or(0);
+                // the first occurrence of `acc.` may be in the import line for nested paths: take the one in the body
+                let off = main.match_indices(&format!("{acc}.")).map(|(i, _)| i + acc.len() + 1).last().unwrap_or(off);
+                out.push((format!("module-dot|items{mask:08b}|{iname}|{cname}"), vec![("main".to_string(), main), (mpath.to_string(), m_text.clone())], off, must.clone(), BTreeSet::new()));
+            }
+        }
+    }
+    // value.
+    let fields = [("a", "Int", "1"), ("b", "String", "\"s\"")];
+    let subsets: Vec<Vec<usize>> = vec![vec![], vec![0], vec![1], vec![0, 1]];
+    for v1 in &subsets {
+        for v2 in std::iter::once(None).chain(subsets.iter().map(Some)) {
+            let variant = |name: &str, fs: &Vec<usize>| if fs.is_empty() { name.to_string() } else { format!("{name}({})", fs.iter().map(|&k| format!("{}: {}", fields[k].0, fields[k].1)).collect::<Vec<_>>().join(", ")) };
+            let ty = format!("pub type Rec {{ {} {} }}\npub type Other {{ Other(c: Int) }}\n", variant("V1", v1), v2.map(|f| variant("V2", f)).unwrap_or_default());
+            let all: BTreeSet<String> = v1.iter().chain(v2.into_iter().flatten()).map(|&k| fields[k].0.to_string()).collect();
+            let common: BTreeSet<String> = match v2 {
+                None => v1.iter().map(|&k| fields[k].0.to_string()).collect(),
+                Some(f2) => v1.iter().filter(|k| f2.contains(k)).map(|&k| fields[k].0.to_string()).collect(),
+            };
+            let ctor = if v1.is_empty() { "V1".to_string() } else { format!("V1({})", v1.iter().map(|&k| fields[k].2).collect::<Vec<_>>().join(", ")) };
+            let tag = format!("v1{:?}v2{:?}", v1, v2);
+            let local_param = format!("{ty}pub fn main(r: Rec, o: Other) {{ r. }}\n");
+            out.push((format!("value-dot|{tag}|parameter"), vec![("main".to_string(), local_param.clone())], local_param.find("r. ").unwrap() + 2, common.clone(), all.clone()));
+            let local_let = format!("{ty}pub fn main(o: Other) {{ let r = {ctor} r. }}\n");
+            out.push((format!("value-dot|{tag}|let"), vec![("main".to_string(), local_let.clone())], local_let.rfind("r. ").unwrap() + 2, common.clone(), all.clone()));
+            let imported = "import m\npub fn main(r: m.Rec, o: m.Other) { r. }\n".to_string();
+            out.push((format!("value-dot|{tag}|imported"), vec![("main".to_string(), imported.clone()), ("m".to_string(), ty.clone())], imported.find("r. ").unwrap() + 2, common.clone(), all.clone()));
+        }
+    }
+    out
+}
+
+fn eval_dot_case(mods: &[(String, String)], off: usize, must: &BTreeSet<String>, may: &BTreeSet<String>) -> Vec<(String, String)> {
+    let refs: Vec<(&str, &str)> = mods.iter().map(|(n, t)| (n.as_str(), t.as_str())).collect();
+    let ws = Workspace::single(&refs);
+    let files = ws.files();
+    let host = ws.host();
+    let an = host.snapshot();
+    let mut out = vec![];
+    match catch(|| an.completions(FilePos::new(files[0].id, (off as u32).into()), Some('.'))) {
+        Ok(Ok(items)) => {
+            let offered: BTreeSet<String> = items.unwrap_or_default().iter().filter(|i| i.kind != ide::CompletionItemKind::Keyword).map(|i| i.label.to_string()).collect();
+            for m in must.difference(&offered) {
+                out.push(("dot-member-not-offered".to_string(), format!("`{m}` is not offered; offered {offered:?}")));
+            }
+            for o in &offered {
+                if !must.contains(o) && !may.contains(o) {
+                    out.push(("dot-offers-foreign-name".to_string(), format!("`{o}` is offered; allowed {:?}", must.union(may).collect::<Vec<_>>())));
+                }
+            }
+        }
+        other => out.push(("dot-no-completions".to_string(), format!("{other:?}"))),
+    }
+    out
+}
+
+fn dot_grid_layer(rep: &mut Report) {
+    let cases = dot_grid_cases();
+    let res: Vec<Vec<Violation>> = cases
+        .par_iter()
+        .map(|(name, mods, off, must, may)| {
+            eval_dot_case(mods, *off, must, may)
+                .into_iter()
+                .map(|(class, detail)| {
+                    // key: what kind of name is wrong, not which of the 256 modules shows it
+                    let what = detail.split('`').nth(1).unwrap_or("").to_string();
+                    let parts: Vec<&str> = name.split('|').collect();
+                    let key = if parts[0] == "module-dot" { format!("module-dot|{what}|{}|{}", parts[2], parts[3]) } else { format!("value-dot|{what}|{}", parts[2]) };
+                    Violation { class, key, witness: json!({"dot_case": name}), detail: format!("[{name}] {}: {detail}", mods[0].1.trim().replace('\n', " / ")) }
+                })
+                .collect()
+        })
+        .collect();
+    let mut l = Layer { name: "dot-completions-grid".into(), exhaustive: true, ..Default::default() };
+    for v in res {
+        l.states += 1;
+        l.executions += 1;
+        l.transitions += 1;
+        for x in v {
+            rep.violation(x);
+        }
+    }
+    l.bound = format!("{} completions triggered by '.': after `module.` every subset of 8 item kinds (pub/private function, pub/private constant, pub/private/opaque custom type, pub alias) x 3 import forms (plain, `as`, nested path) x 4 cursor contexts (statement, let value, before a partial name, call argument) - exactly the public functions and the constructors of public non-opaque types; after `value.` every layout of a record type with 1-2 variants over fields {{a, b}} x (annotated parameter, let-bound construction, type imported from another module) - at least the fields common to all variants, at most the fields of that type", cases.len());
+    rep.layer(l);
+}
+
 pub fn replay(which: Which, w: &Value) -> Vec<String> {
     if w.get("case").is_some() {
         let mut rep = Report::new("C18", Tier::Quick);
         dot_layer(&mut rep);
         return rep.violations.iter().filter(|v| Some(v.key.as_str()) == w["case"].as_str()).map(|v| v.detail.clone()).collect();
+    }
+    if let Some(name) = w["dot_case"].as_str() {
+        let Some((_, mods, off, must, may)) = dot_grid_cases().into_iter().find(|c| c.0 == name) else { return vec!["unknown dot case".into()] };
+        return eval_dot_case(&mods, off, &must, &may).into_iter().map(|(c, d)| format!("{c}: {d}")).collect();
     }
     if let Some(name) = w["namespace_program"].as_str() {
         let Some((_, mods)) = namespace_programs().into_iter().find(|(n, _)| n == name) else { return vec!["unknown namespace program".into()] };
